@@ -134,9 +134,6 @@ func (ex *Exec) bigMethod(st *PState, fn *ssa.Function, args []Value) Value {
 	case "Rsh", "Lsh":
 		x := L(1)
 		n := args[2].(*Term)
-		if nn, ok := ex.underGuard(st, n).(*Term); ok {
-			n = nn
-		}
 		if c, ok := n.constInt(); ok {
 			p := ts.Int(pow2(uint(c.Int64())))
 			if name == "Rsh" {
